@@ -312,6 +312,31 @@ impl Broker {
                     self.calls().contains_key(s) && self.calls()[s].callee_obj == k.0 && self.calls()[s].callee_svc == k.1
     }
 
+    // (SUBS) subscriptions are mirrored: what a live service records about a connected subscriber, that connection records
+    //        about the service; and every service satisfies its own representation invariant
+    spec fn inv_subs(&self) -> bool {
+        &&& forall|k: (ObjectUuid, ServiceUuid)| #![trigger self.svcs@[k]] self.svcs@.contains_key(k) ==> self.svcs@[k].inv()
+        &&& forall|k: (ObjectUuid, ServiceUuid), e: u32, c: ConnectionId| #![trigger self.svcs@[k].subs(e).contains(c)]
+                self.svcs@.contains_key(k) && self.svcs@[k].subs(e).contains(c) && self.conns@.contains_key(c) ==>
+                    self.conns@[c].ev(self.svcs@[k].cookie).contains(e)
+        &&& forall|k: (ObjectUuid, ServiceUuid), c: ConnectionId| #![trigger self.svcs@[k].all_events@.contains(c)]
+                self.svcs@.contains_key(k) && self.svcs@[k].all_events@.contains(c) && self.conns@.contains_key(c) ==>
+                    self.conns@[c].all_events@.contains(self.svcs@[k].cookie)
+        &&& forall|k: (ObjectUuid, ServiceUuid), c: ConnectionId| #![trigger self.svcs@[k].subscriptions@.contains(c)]
+                self.svcs@.contains_key(k) && self.svcs@[k].subscriptions@.contains(c) && self.conns@.contains_key(c) ==>
+                    self.conns@[c].subscriptions@.contains(self.svcs@[k].cookie)
+    }
+
+    // every subscriber recorded by a live service is a connected client (between two requests)
+    spec fn subscribers_connected(&self) -> bool {
+        &&& forall|k: (ObjectUuid, ServiceUuid), e: u32, c: ConnectionId| #![trigger self.svcs@[k].subs(e).contains(c)]
+                self.svcs@.contains_key(k) && self.svcs@[k].subs(e).contains(c) ==> self.conns@.contains_key(c)
+        &&& forall|k: (ObjectUuid, ServiceUuid), c: ConnectionId| #![trigger self.svcs@[k].all_events@.contains(c)]
+                self.svcs@.contains_key(k) && self.svcs@[k].all_events@.contains(c) ==> self.conns@.contains_key(c)
+        &&& forall|k: (ObjectUuid, ServiceUuid), c: ConnectionId| #![trigger self.svcs@[k].subscriptions@.contains(c)]
+                self.svcs@.contains_key(k) && self.svcs@[k].subscriptions@.contains(c) ==> self.conns@.contains_key(c)
+    }
+
     // every connection's own representation invariant
     spec fn inv_conns(&self) -> bool {
         forall|k: ConnectionId| #![trigger self.conns@[k]] self.conns@.contains_key(k) ==> self.conns@[k].inv()
@@ -321,7 +346,7 @@ impl Broker {
     // disconnected owner. That is the state inside remove_object / shutdown_connection.
     spec fn reg_winv(&self) -> bool {
         &&& self.inv_objects() &&& self.inv_services() &&& self.inv_object_services() &&& self.inv_ownership()
-        &&& self.inv_calls() &&& self.inv_conns()
+        &&& self.inv_calls() &&& self.inv_conns() &&& self.inv_subs()
     }
 
     // service cookies whose object does not exist (any more)
@@ -336,6 +361,7 @@ impl Broker {
                 self.objs@.contains_key(self.svc_uuids@[sc].0.uuid)
         &&& forall|u: ObjectUuid| #![trigger self.objs@[u]] self.objs@.contains_key(u) ==>
                 self.conns@.contains_key(self.objs@[u].conn_id)
+        &&& self.subscribers_connected()
     }
 
     spec fn same_rest(&self, o: &Self) -> bool {
@@ -404,9 +430,7 @@ impl Broker {
                 &&& final(self).calls() =~= old(self).calls().remove_keys(svc.function_calls@)
                 // ... no object is owned differently, no connection gains or loses an object or a pending call
                 &&& forall|c: ConnectionId| #![trigger final(self).conns@[c]] old(self).conns@.contains_key(c) ==> {
-                        &&& final(self).conns@[c].objects == old(self).conns@[c].objects
-                        &&& final(self).conns@[c].calls == old(self).conns@[c].calls
-                        &&& final(self).conns@[c].version == old(self).conns@[c].version
+                        &&& final(self).conns@[c].rest_eq2(&old(self).conns@[c], 3, 5)
                         // its subscriptions to this service end, all others stay
                         &&& final(self).conns@[c].ev(svc_cookie) == (if svc.is_subscriber(c) { Set::<u32>::empty() } else { old(self).conns@[c].ev(svc_cookie) })
                         &&& forall|o: ServiceCookie| o != svc_cookie ==> final(self).conns@[c].ev(o) == old(self).conns@[c].ev(o)
@@ -618,8 +642,11 @@ impl Broker {
                 &&& forall|c: ConnectionId| #![trigger final(self).conns@[c]] old(self).conns@.contains_key(c) ==> {
                         &&& final(self).conns@[c].objects@ == (if c == owner { old(self).conns@[c].objects@.remove(obj_cookie) }
                                                               else { old(self).conns@[c].objects@ })
-                        &&& final(self).conns@[c].calls == old(self).conns@[c].calls
-                        &&& final(self).conns@[c].version == old(self).conns@[c].version
+                        &&& final(self).conns@[c].rest_eq3(&old(self).conns@[c], 2, 3, 5)
+                        // subscriptions to services of other objects are untouched
+                        &&& forall|o: ServiceCookie| !(old(self).svc_uuids@.contains_key(o) && old(self).svc_uuids@[o].0.uuid == u) ==>
+                                final(self).conns@[c].ev(o) == old(self).conns@[c].ev(o)
+                                && (final(self).conns@[c].subscriptions@.contains(o) <==> old(self).conns@[c].subscriptions@.contains(o))
                     }
                 // queued work: one ObjectDestroyed bus event for exactly this object
                 &&& final(state).destroy_object@ == old(state).destroy_object@.push(ObjectId { uuid: u, cookie: obj_cookie })
@@ -669,9 +696,10 @@ impl Broker {
                 && (self.calls().contains_key(s) ==> self.calls()[s] == mid.calls()[s]),
             self.conns@.dom() =~= mid.conns@.dom(),
             forall|c: ConnectionId| #![trigger self.conns@[c]] self.conns@.contains_key(c) ==> {
-                &&& self.conns@[c].objects == mid.conns@[c].objects
-                &&& self.conns@[c].calls == mid.conns@[c].calls
-                &&& self.conns@[c].version == mid.conns@[c].version
+                &&& self.conns@[c].rest_eq2(&mid.conns@[c], 3, 5)
+                &&& forall|o: ServiceCookie| !(mid.svc_uuids@.contains_key(o) && mid.svc_uuids@[o].0.uuid == u) ==>
+                        self.conns@[c].ev(o) == mid.conns@[c].ev(o)
+                        && (self.conns@[c].subscriptions@.contains(o) <==> mid.conns@[c].subscriptions@.contains(o))
             },
             state.destroy_object@ == old(state).destroy_object@.push(ObjectId { uuid: u, cookie: obj_cookie }),
             state.rest_eq_teardown(old(state)),
